@@ -30,6 +30,13 @@ NEEDS = {
  "C15-m1": ("C15", "image normalisation done in place: float32 observations handed in as numpy arrays are rewritten, so a batch and its rows (or the same observation twice) give different results", ""),
  "C15-m2": ("C15", "assemble/disassemble_homogeneous_outputs switched (consistently) to env-major layout while IPPO batches agent-major: >=2 homogeneous agents and >=2 environments in one call", ""),
  "C04-m1": ("C04", "StochasticActor.recreate_network preserves MLP->MLP and re-wraps: the learned log_std is reset on (even blocked) latent mutations with Box actions", ""),
+ "C20-m1": ("C20", "on-policy step counters advance by learn_step per rollout instead of num_envs per env.step: wrong only when num_envs does not divide learn_step (budget overrun, wrong checkpoints names)", ""),
+ "C20-m2": ("C20", "off-policy loop only starts a generation that fits the budget: returns one generation early when max_steps is not a multiple of the generation length", ""),
+ "C18-m1": ("C18", "floor/ceil neighbour fix-up replaced by L=floor, u=min(L+1, top): all mass of source atoms clipped exactly to v_max is lost (only rewards at/above v_max)", ""),
+ "C18-m2": ("C18", "one gamma for all _dqn_loss calls: in combined mode with n-step data the 1-step half is discounted with gamma**n (needs combined_reward, n_step>1, gamma<1, done=0 rows)", ""),
+ "C19-m1": ("C19", "gamma folded into the gradient features: sigma_inv becomes inv(lambda I + gamma^2 sum g g^T); identical at the default gamma=1", ""),
+ "C19-m2": ("C19", "per-arm zero_grad() moved after reading the gradient: the loss gradients a preceding learn() leaves in .grad leak into arm 0's feature (learn immediately followed by get_action choosing arm 0)", "first reported as HARNESS-ERROR (the harness' in-place undo did not restore .grad, so re-execution diverged); the undo now restores .grad exactly and a diverging history is re-judged by the oracle before any harness error - now a VIOLATION"),
+ "C04-m2": ("C04", "EvolvableMultiInput.get_inner_init_dict reads the constructor's configs instead of the live nested configs: after a nested extractor mutation a following add_latent_node ON THE SAME OBJECT (no clone in between) rebuilds the nested networks with their initial architecture", "missed by the first C03/C04 versions (every edge was clone-then-mutate); caught by both after adding in-place mutation pairs - which also exposed a genuine stale-bound-method defect on the unchanged tree (recorded as open finding)"),
 }
 for name, (prop, needs, note) in NEEDS.items():
     d = os.path.join(HERE, "seeded", name)
